@@ -1,8 +1,232 @@
 import Pose.Wire
-/-! Driver ops for C08. -/
-namespace PP.Driver
-open PP Wire
+import Pose.Model.LMLoop
+/-!
+Driver ops for C08.
 
-def opsC08 : List (String × Handler) := []
+The accept/reject loop model is generic in the parameter type; the driver instantiates it with the
+finite "parameter space" that one observed call of `step()` visits: point `0` = the parameters the call
+was given, point `i+1` = the trial point of the `i`-th solve.  Steps are integers: `+(i+1)` is the step
+returned by the `i`-th solve, `-(i+1)` its negation.  `retr` satisfies `retr (retr p d) (neg d) = p` on
+every pair the loop can produce (checked again at run time: a junk point is reported as `err`).
+-/
+namespace PP.Driver
+open PP Wire LMLoop
+
+def junk : Nat := 1000000
+
+structure Trial where
+  raise : Bool
+  loss : BigF
+  d : List BigF
+
+def mkProb (l0 : BigF) (trials : Array Trial) : Prob Nat Int BigF :=
+  { lossAt := fun p => if p == 0 then l0 else
+      match trials[p - 1]? with
+      | some t => t.loss
+      | none => BigF.zero
+    retr := fun p d =>
+      if p == 0 && d > 0 then d.toNat
+      else if p ≥ 1 && d == -(p : Int) then 0
+      else junk
+    neg := fun d => -d }
+
+def mkEnv (kd : Kind) (h : Hyper BigF) (J : DMat BigF) (R : DVec BigF) (trials : Array Trial) :
+    Env Nat Int (SState BigF) BigF :=
+  { solve := fun i _ =>
+      match trials[i]? with
+      | some t => if t.raise then none else some ((i : Int) + 1)
+      | none => none
+    upd := fun s last loss d =>
+      match trials[d.natAbs - 1]? with
+      | some t => stratUpd kd h s (last - loss) (qualityDen J t.d R)
+      | none => s }
+
+def kindOf (n : Nat) : Except String Kind :=
+  match n with
+  | 0 => .ok .constant | 1 => .ok .adaptive | 2 => .ok .trust | _ => .error "bad-kind"
+
+def verdictNum : Verdict → Nat
+  | .very => 0 | .ok => 1 | .bad => 2
+
+def hyperOf (xs : List BigF) : Except String (Hyper BigF) :=
+  match xs with
+  | [high, low, up, factor, down0, smin, smax] => .ok ⟨high, low, up, factor, down0, smin, smax⟩
+  | _ => .error "arity-hyper"
+
+def rowsOf (m n : Nat) (xs : List BigF) : DMat BigF :=
+  (List.range m).map fun i => (xs.drop (i * n)).take n
+
+def parseTrials (n : Nat) : Nat → List String → Except String (List Trial)
+  | 0, [] => .ok []
+  | 0, _ => .error "arity-trials"
+  | c + 1, r :: l :: rest => do
+      let r ← nat r
+      let l ← num l
+      let (dt, rest) ← Wire.take n rest
+      let d ← nums dt
+      let ts ← parseTrials n c rest
+      return ⟨r == 1, l, d⟩ :: ts
+  | _ + 1, _ => .error "arity-trials"
+
+def stOut (st : St Nat (SState BigF) BigF) : List BigF :=
+  [BigF.ofNat st.p, st.loss, st.last, BigF.ofNat st.rc, BigF.ofNat st.solves,
+   BigF.ofNat (if st.live then 1 else 0), st.s.damping, st.s.radius, st.s.down]
+
+def parseKernel : List String → Except String ((BigF → BigF) × List String)
+  | "0" :: rest => .ok (rhoTrivial, rest)
+  | "1" :: d :: rest => do let d ← num d; return (rhoHuber d, rest)
+  | "2" :: d :: rest => do let d ← num d; return (rhoPseudoHuber d, rest)
+  | "3" :: d :: rest => do let d ← num d; return (rhoCauchy d, rest)
+  | _ => .error "bad-kernel"
+
+def parseKernels : Nat → List String → Except String (List (BigF → BigF) × List String)
+  | 0, rest => .ok ([], rest)
+  | c + 1, ts => do
+      let (kf, rest) ← parseKernel ts
+      let (ks, rest) ← parseKernels c rest
+      return (kf :: ks, rest)
+
+def parseOutputs : Nat → List String → Except String (List (Output BigF))
+  | 0, [] => .ok []
+  | 0, _ => .error "arity-outputs"
+  | c + 1, ni :: dm :: rest => do
+      let ni ← nat ni
+      let dm ← nat dm
+      let (vt, rest) ← Wire.take (ni * dm) rest
+      let v ← nums vt
+      let os ← parseOutputs c rest
+      return (rowsOf ni dm v) :: os
+  | _ + 1, _ => .error "arity-outputs"
+
+def parsePairs : List BigF → List (BigF × BigF)
+  | a :: b :: rest => (a, b) :: parsePairs rest
+  | _ => []
+
+def opsC08 : List (String × Handler) := [
+  -- c08.upd kind force(9=auto|0|1|2) high low up factor down0 smin smax damping radius down last loss m n J(m*n) D(n) R(m)
+  --   -> damping radius down verdict num den
+  ("c08.upd", fun ts => do
+      match ts with
+      | kd :: force :: rest =>
+        let kd ← kindOf (← nat kd)
+        let force ← nat force
+        let (ht, rest) ← Wire.take 7 rest
+        let h ← hyperOf (← nums ht)
+        match rest with
+        | dm :: rd :: dn :: last :: loss :: m :: n :: rest =>
+          let s : SState BigF := ⟨← num dm, ← num rd, ← num dn⟩
+          let last ← num last
+          let loss ← num loss
+          let m ← nat m
+          let n ← nat n
+          let (jt, rest) ← Wire.take (m * n) rest
+          let (dt, rest) ← Wire.take n rest
+          let (rt, rest) ← Wire.take m rest
+          if !rest.isEmpty then throw "arity"
+          let J := rowsOf m n (← nums jt)
+          let Dv ← nums dt
+          let R ← nums rt
+          let nm := last - loss
+          let den := qualityDen J Dv R
+          let v := verdict h.high h.low nm den
+          let s' := match force with
+            | 9 => stratUpd kd h s nm den
+            | f =>
+              let fv := if f == 0 then Verdict.very else if f == 1 then Verdict.ok else Verdict.bad
+              match kd with
+              | .constant => updConstant s
+              | .adaptive => updAdaptive h s fv
+              | .trust => updTrust h s fv
+          return fmt [s'.damping, s'.radius, s'.down, BigF.ofNat (verdictNum v), nm, den]
+        | _ => throw "arity"
+      | _ => throw "arity"),
+  -- c08.stratrun kind high low up factor down0 smin smax damping radius down (num den)*
+  --   -> (damping radius down)* after each update
+  ("c08.stratrun", fun ts => do
+      match ts with
+      | kd :: rest =>
+        let kd ← kindOf (← nat kd)
+        let (ht, rest) ← Wire.take 7 rest
+        let h ← hyperOf (← nums ht)
+        match rest with
+        | dm :: rd :: dn :: rest =>
+          let s : SState BigF := ⟨← num dm, ← num rd, ← num dn⟩
+          let qs := parsePairs (← nums rest)
+          let states := (List.range qs.length).map fun i => stratRun kd h s (qs.take (i + 1))
+          return fmt (states.flatMap fun s => [s.damping, s.radius, s.down])
+        | _ => throw "arity"
+      | _ => throw "arity"),
+  -- c08.lm kind high low up factor down0 smin smax damping radius down reject cached(0/1) L0 m n J R ntr (raise loss D(n))*
+  --   -> 9 numbers for the state after 1..ntr passes, then 9 numbers for lmStep (fuel reject+1)
+  ("c08.lm", fun ts => do
+      match ts with
+      | kd :: rest =>
+        let kd ← kindOf (← nat kd)
+        let (ht, rest) ← Wire.take 7 rest
+        let h ← hyperOf (← nums ht)
+        match rest with
+        | dm :: rd :: dn :: rej :: cached :: l0 :: m :: n :: rest =>
+          let s : SState BigF := ⟨← num dm, ← num rd, ← num dn⟩
+          let rej ← nat rej
+          let cached ← nat cached
+          let l0 ← num l0
+          let m ← nat m
+          let n ← nat n
+          let (jt, rest) ← Wire.take (m * n) rest
+          let (rt, rest) ← Wire.take m rest
+          let J := rowsOf m n (← nums jt)
+          let R ← nums rt
+          match rest with
+          | ntr :: rest =>
+            let ntr ← nat ntr
+            let trials := (← parseTrials n ntr rest).toArray
+            let pr := mkProb l0 trials
+            let e := mkEnv kd h J R trials
+            let st0 : St Nat (SState BigF) BigF := start pr (if cached == 1 then some l0 else none) 0 s
+            let pre := (List.range ntr).map fun i => loop pr rej e (i + 1) st0
+            let fin := lmStep pr rej e (if cached == 1 then some l0 else none) 0 s
+            if (fin :: pre).any (fun st => st.p == junk) then throw "contract-retr"
+            return fmt ((pre.flatMap stOut) ++ stOut fin)
+          | _ => throw "arity"
+        | _ => throw "arity"
+      | _ => throw "arity"),
+  -- c08.gn cached(0/1) L0 nsteps (raise loss)*  -> (p loss last haveLast)* after each call
+  ("c08.gn", fun ts => do
+      match ts with
+      | cached :: l0 :: nst :: rest =>
+        let cached ← nat cached
+        let l0 ← num l0
+        let nst ← nat nst
+        let xs ← nums rest
+        let steps := (parsePairs xs).toArray
+        if steps.size != nst then throw "arity"
+        -- point i = parameters after i successful updates; loss at point i+1 = loss token of the step that got there
+        let lossTab : Nat → BigF := fun p => if p == 0 then l0 else
+          -- the (p)-th successful step
+          let succ := steps.toList.filter (fun (x : BigF × BigF) => x.1.isZero)
+          match succ[p - 1]? with
+          | some x => x.2
+          | none => BigF.zero
+        let pr : Prob Nat Int BigF := { lossAt := lossTab, retr := fun p _ => p + 1, neg := fun d => -d }
+        let o0 : GNOpt Nat BigF := { p := 0, loss := if cached == 1 then some l0 else none, last := none }
+        let solves : List (Nat → Option Int) := steps.toList.map fun x => fun _ => if x.1.isZero then some 1 else none
+        let outs := (List.range nst).map fun i => gnRun pr o0 (solves.take (i + 1))
+        return fmt (outs.flatMap fun o =>
+          [BigF.ofNat o.p, o.loss.getD BigF.zero, o.last.getD BigF.zero, BigF.ofNat (if o.last.isSome then 1 else 0)])
+      | _ => throw "arity"),
+  -- c08.loss nk kernel* nouts (nitems dim values*)*  -> loss
+  ("c08.loss", fun ts => do
+      match ts with
+      | nk :: rest =>
+        let nk ← nat nk
+        let (ks, rest) ← parseKernels nk rest
+        match rest with
+        | no :: rest =>
+          let no ← nat no
+          let outs ← parseOutputs no rest
+          return fmt [robustLoss ks outs]
+        | _ => throw "arity"
+      | _ => throw "arity")
+]
 
 end PP.Driver
